@@ -9,6 +9,10 @@ CLAIMED = {
             "static analysis: the momentum reaching each update is self.momentum (single definition), the EMA helper is the required polynomial, both hooks measure the right tensor with absmax_scale and store into the matching buffer: covers every batch history", NOTE),
     "C13": ("DESIGN.md §3 C13", "acquire/release pairing over all paths of __enter__/__exit__, who-may-call check, whole-package call graph with external write-effect analysis from the inference and quantization entry points",
             "static analysis: every path of __exit__ releases every handle acquired by __enter__ regardless of exception arguments; no external write effect reachable from inference entry points; in-place tensor ops only on fresh values in the quantization closure", NOTE),
+    "C10": ("DESIGN.md §3 C10", "writer/reader agreement over the flatten/unflatten/load paths (key sets, codecs), value-class analysis of stored values, data/control dependence for derived state, constant propagation into qcreate",
+            "static analysis: every key written by the save paths is read back by the matching loader with an inverse codec; stored values are plain tensors or strings; state derived from weight_qtype is re-derived on load; requantize recreates every class quantize can create", NOTE),
+    "C14": ("DESIGN.md §3 C14", "must-pass-through guards: path enumeration of every quantization entry point with unit propagation of guard facts; dominance of the group-size store by its divisibility test",
+            "static analysis: every accepting path of quantize_weight / quantize_activation / the quantizers / group / the optimizers has established each guard of the validation matrix, rejections raise ValueError, the automatic group size is only produced under the divisibility test", NOTE),
 }
 PENDING = "rule set under construction in this session (fail-closed: not claimed until its check passes on the unchanged tree)"
-NOT_APPLICABLE = {k: PENDING for k in ["C01","C02","C03","C04","C07","C08","C09","C10","C11","C14","C15","C16"]}
+NOT_APPLICABLE = {k: PENDING for k in ["C01","C02","C03","C04","C07","C08","C09","C11","C15","C16"]}
